@@ -74,6 +74,11 @@ pub fn check(r: &mut Report, rig: &Rig, e: &EndpointD, states: &[St]) {
     }
 }
 
+/// percent-encode everything outside the unreserved set (the raw request stays a valid URI)
+fn pct(s: &str) -> String {
+    s.bytes().map(|b| if b.is_ascii_alphanumeric() || b"-._~".contains(&b) { (b as char).to_string() } else { format!("%{:02X}", b) }).collect()
+}
+
 pub fn run(args: &Args) -> Report {
     let mut report = Report::new("C19", "exploration");
     let rig = Rig::new(Options::default);
@@ -97,8 +102,26 @@ pub fn run(args: &Args) -> Report {
     // integers, out-of-range safelongs, ...), one argument at a time, others valid
     for e in &eps {
         for (i, a) in e.args.iter().enumerate() {
-            if !matches!(a.kind, reqs::Kind::Path | reqs::Kind::Query(_) | reqs::Kind::Header(_)) {
+            if matches!(a.kind, reqs::Kind::Body) {
                 continue;
+            }
+            // unusual texts inside the grammar: every argument decodes, the handler runs
+            for alt in &a.valid_alts {
+                let visible = alt.bytes().all(|b| (0x20..0x7f).contains(&b));
+                if !matches!(a.kind, reqs::Kind::Path | reqs::Kind::Query(_)) && !visible {
+                    continue;
+                }
+                // an empty path segment is another route; `%` alone is not a URI
+                if matches!(a.kind, reqs::Kind::Path) && alt.is_empty() {
+                    continue;
+                }
+                let mut e2 = e.clone();
+                e2.args[i].valid = match a.kind {
+                    reqs::Kind::Path | reqs::Kind::Query(_) => pct(alt),
+                    _ => alt.to_string(),
+                };
+                let states: Vec<St> = vec![St::Valid; e.args.len()];
+                check(&mut report, &rig, &e2, &states);
             }
             for alt in &a.bad_alts {
                 if matches!(a.kind, reqs::Kind::Header(_)) && !alt.bytes().all(|b| (0x20..0x7f).contains(&b)) {
@@ -107,7 +130,7 @@ pub fn run(args: &Args) -> Report {
                 let mut e2 = e.clone();
                 e2.args[i].bad = match a.kind {
                     // keep the URI well-formed
-                    reqs::Kind::Path | reqs::Kind::Query(_) => alt.replace('+', "%2B").replace(' ', "%20").replace(',', "%2C"),
+                    reqs::Kind::Path | reqs::Kind::Query(_) => pct(alt),
                     _ => alt.to_string(),
                 };
                 let states: Vec<St> = (0..e.args.len()).map(|j| if j == i { St::Unparsable } else { St::Valid }).collect();
